@@ -98,7 +98,8 @@ def check_mgs_answer(ctx, kw, scale, r, rep):
     nums, total, parts = exact_numbers(kw, scale)
     oracle = props.min_genset(nums, total, mult, parts, lowerbound=lb, maxsize=4)
     n_init = len(kw["numbers"])
-    code_range = list(range(lb, max(lb + 1, n_init + 2 + e1misc.extra_cuts(kw.get("partition_constraints")))))
+    first_k = max(1, lb)                                  # 2a5d8e1: the search starts at max(1, lowerbound)
+    code_range = list(range(first_k, max(first_k + 1, n_init + 2 + e1misc.extra_cuts(kw.get("partition_constraints")))))
     if not r["ok"]:
         ctx.count("E2_genset", "unsolved")
         if oracle is not None:
